@@ -75,6 +75,30 @@ fn expand_items(items: Vec<Item>, out: &mut proc_macro2::TokenStream) {
     }
 }
 
+fn print_items(items: &[Item], out: &mut String) {
+    for item in items {
+        match item {
+            Item::Mod(md) if md.content.is_some() => {
+                for a in md.attrs.iter().filter(|a| matches!(a.style, syn::AttrStyle::Outer)) {
+                    out.push_str(&a.to_token_stream().to_string());
+                    out.push('\n');
+                }
+                out.push_str(&format!("{} mod {} {{\n", md.vis.to_token_stream(), md.ident));
+                for a in md.attrs.iter().filter(|a| !matches!(a.style, syn::AttrStyle::Outer)) {
+                    out.push_str(&a.to_token_stream().to_string());
+                    out.push('\n');
+                }
+                print_items(&md.content.as_ref().unwrap().1, out);
+                out.push_str("}\n");
+            }
+            other => {
+                out.push_str(&other.to_token_stream().to_string());
+                out.push('\n');
+            }
+        }
+    }
+}
+
 struct Sig(Vec<serde_json::Value>);
 
 impl<'ast> Visit<'ast> for Sig {
@@ -105,7 +129,15 @@ fn main() {
         Some("expand") => {
             let src = std::fs::read_to_string(&args[2]).expect("read");
             let ts = expand_file(&src);
-            std::fs::write(&args[3], ts.to_string()).expect("write");
+            // one item per line (modules recursively), so that compiler spans identify the item
+            let file: syn::File = syn::parse2(ts).expect("reparse");
+            let mut out = String::new();
+            for a in &file.attrs {
+                out.push_str(&a.to_token_stream().to_string());
+                out.push('\n');
+            }
+            print_items(&file.items, &mut out);
+            std::fs::write(&args[3], out).expect("write");
         }
         Some("signature") => {
             let src = std::fs::read_to_string(&args[2]).expect("read");
